@@ -254,8 +254,6 @@ class _FunctionDefParser(_BaseFunctionParser):
         kwargs = []
         args += [arg.arg for arg in self.ast.args.posonlyargs]
         args += [arg.arg for arg in self.ast.args.args]
-        if self.ast.args.vararg is not None:
-            args += ["*" + self.ast.args.vararg.arg]
         if len(self.ast.args.defaults) > 0:
             defaults = self.ast.args.defaults
             kwargs += [
@@ -263,6 +261,8 @@ class _FunctionDefParser(_BaseFunctionParser):
                 for name, value in zip(args[-len(defaults) :], defaults)
             ]
             del args[-len(self.ast.args.defaults) :]
+        if self.ast.args.vararg is not None:
+            args += ["*" + self.ast.args.vararg.arg]
         if self.ast.args.kwarg is not None:
             args += ["**" + self.ast.args.kwarg.arg]
         if self.ast.args.kwonlyargs:
